@@ -76,6 +76,10 @@ Interp(cells, refmi, reffp) ==
 
 Verdict(ok) == IF ok THEN "acc" ELSE "rej"
 
+IsAddr(a) == Kind[a.n] \in {"addr", "xaddr"}
+WireAddrs(m) == LET as == SelectSeq(m.a, IsAddr)
+                IN [i \in 1..Len(as) |-> [code |-> Code[as[i].n], fam |-> IF Len(as[i].b) = 4 THEN 1 ELSE 2, len |-> 4 + Len(as[i].b)]]
+
 (* --- bookkeeping -------------------------------------------------------------------------------- *)
 Diverge(d, info) ==
     /\ dflag' = (dflag \/ d)
@@ -93,7 +97,7 @@ ResetStep(ev) ==
     /\ st' = "new" /\ w' = NoWire /\ q' = NoQ /\ res' = NoRes /\ hist' = <<>>
     /\ rb' = "none" /\ held' = <<>> /\ obs' = NoObs
     /\ IF ev.kind = "case"
-       THEN /\ c' = [sub |-> {ev.sub[i] : i \in 1..Len(ev.sub)}, v |-> ev.v, klen |-> ev.klen, fp |-> ev.fp, helper |-> FALSE]
+       THEN /\ c' = [sub |-> {ev.sub[i] : i \in 1..Len(ev.sub)}, v |-> ev.v, klen |-> ev.klen, fp |-> ev.fp, ac |-> ev.ac, pc |-> ev.pc, helper |-> FALSE]
             /\ cur' = [kind |-> "case", m |-> ev.m, klen |-> ev.klen, fp |-> ev.fp, bytes |-> <<>>]
             \* the case descriptor and the message description must be the specification's
             /\ annot' = IF Msg(c') = ev.m THEN annot ELSE annot \cup {[line |-> l, what |-> "message is not Msg(case)"]}
@@ -113,7 +117,11 @@ EncodeStep(ev) ==
     /\ cur' = [cur EXCEPT !.bytes = bs]
     /\ AddViol({[case |-> cid, line |-> l, prop |-> p, e |-> "Encode", pos |-> 0, bit |-> 0] : p \in failed})
     /\ annot' = IF AnnotBad(bs, ev.fr) THEN annot \cup {[line |-> l, what |-> "frame offsets differ"]} ELSE annot
-    /\ Diverge(Interp(w'.c, ev.fr.refmi, ev.fr.reffp) # bs, [what |-> "layout", model |-> <<Len(w'.c), w'.mi, w'.fp>>, impl |-> <<Len(bs), fr.mi, fr.fp>>])
+    \* ev.wa: family and length of every address attribute found in the bytes by lib/refstun.py (its own walk)
+    \* against RFC 5389 15.1: family 0x01 and 8 bytes for a 4-byte address, 0x02 and 20 bytes for a 16-byte one
+    /\ Diverge(Interp(w'.c, ev.fr.refmi, ev.fr.reffp) # bs \/ ev.wa # WireAddrs(cur.m),
+               [what |-> IF ev.wa # WireAddrs(cur.m) THEN "address family/length on the wire" ELSE "layout",
+                model |-> <<Len(w'.c), w'.mi, w'.fp>>, impl |-> <<Len(bs), fr.mi, fr.fp>>])
     /\ UNCHANGED <<cid, ncases, stats>>
 
 DecodeStep(ev) ==
@@ -121,7 +129,9 @@ DecodeStep(ev) ==
         keyed == ev.key # "none"
         honest == ev.key \in {"same", "none"}
         failed == CallFailed(bs, keyed, ev.ok, ev.fr)
-                  \cup (IF honest /\ ~P_RoundTrip(ev.ok, ev.d = cur.m) THEN {"RoundTrip"} ELSE {})
+                  \* (heq: the driver's comparison of the address objects themselves -- QHostAddress equality,
+                  \* protocol(), port -- of what was set against what came back)
+                  \cup (IF honest /\ ~P_RoundTrip(ev.ok, ev.d = cur.m /\ ev.heq) THEN {"RoundTrip"} ELSE {})
     IN
     /\ \/ IsCase /\ st \in {"enc", "done"} /\ DecodeEff(ev.key)
        \/ ~(IsCase /\ st \in {"enc", "done"}) /\ UNCHANGED vars
